@@ -102,6 +102,31 @@ func deliveries(en []Step) []Step {
 // StrategyByName returns a named directed strategy. Names:
 // fifo, lifo, future, dup, random, starve:<k>, prestart:<k>, flipfirst
 func StrategyByName(name string) (Strategy, error) {
+	if strings.HasPrefix(name, "holdtype:") {
+		// holdtype:<message type>:<sender>: every message of that type from that sender is held back as long as anything
+		// else can happen (it is overtaken by all later traffic, also the sender's own)
+		f := strings.Split(name, ":")
+		if len(f) != 3 {
+			return nil, fmt.Errorf("bad strategy %q", name)
+		}
+		g, err := strconv.Atoi(f[2])
+		if err != nil {
+			return nil, err
+		}
+		typ := f[1]
+		return func(s *Session, en []Step, _ *rand.Rand) Step {
+			if st, ok := firstStart(en); ok {
+				return st
+			}
+			ds := deliveries(en)
+			for _, d := range ds {
+				if it := s.item(d.Item); !(it.Msg.Type == typ && it.From.G == g) {
+					return d
+				}
+			}
+			return ds[0]
+		}, nil
+	}
 	arg := 0
 	if i := strings.Index(name, ":"); i >= 0 {
 		a, err := strconv.Atoi(name[i+1:])
